@@ -1,6 +1,19 @@
 package rules
 
 // C18 R4 — stop protocol structure of the serve loops.
+//
+// A serve loop is a loop that blocks in Read*/Accept* (directly or in a helper,
+// two levels) and is either `for { … }` or `for [!]f(…) { … }` with f a module
+// function (serveKind). Its stop test may be an in-loop select on a receiver
+// channel field, a quit helper (non-blocking select returning a constant bool,
+// on the receiver's field or on a channel parameter; one or two wrappers; a
+// channel accessor) tested by an `if` or by the loop condition. When nothing
+// wrong is observed but the exit of the loop is decided by code the rule does not
+// read (unreadExitTests: atomic flag, context, an unknown bool helper, a blocking
+// helper that makes its own stop test and reports it through its result), the
+// loop and the obligations that depend on its quit channel are NOT DECIDED.
+// Floors are keyed on the lifecycle types (lifecycleTypes / r4Coverage), R4-once
+// on the types that carry a sync.Once, independent of how the loops are written.
 
 import (
 	"fmt"
@@ -78,7 +91,7 @@ func (k *c18) blockingInside(g *ssa.Function, depth int) []c18HelperBlock {
 			}
 			if conn, name, ok := effects.BlockingCall(&call.Call); ok {
 				for _, l := range loops {
-					if l.Blocks[b] && k.unboundedFor(g, l) {
+					if l.Blocks[b] && k.serveKind(g, l) != "" {
 						return nil
 					}
 				}
@@ -131,15 +144,19 @@ type c18ServeLoop struct {
 	recvT    *types.Named
 	quit     effects.FPath // decided by R4-quit-test
 	quitOK   bool
+	kind     string // unbounded | conditional
+	// notDecided: the loop's stop test runs through code the rule does not read (rule 4
+	// of the hardening policy: reported as NOT DECIDED, never as a violation)
+	notDecided  string
+	unreadChans []string
 }
 
-// unboundedFor reports whether the smallest for/range statement of fn's syntax
-// that encloses every positioned instruction of the loop is a `for` without
-// condition.
-func (k *c18) unboundedFor(fn *ssa.Function, l *effects.Loop) bool {
+// loopStmt returns the smallest for/range statement of fn's syntax that encloses
+// every positioned instruction of the loop.
+func (k *c18) loopStmt(fn *ssa.Function, l *effects.Loop) ast.Node {
 	syn := fn.Syntax()
 	if syn == nil {
-		return false
+		return nil
 	}
 	lo, hi := token.Pos(0), token.Pos(0)
 	for b := range l.Blocks {
@@ -155,7 +172,7 @@ func (k *c18) unboundedFor(fn *ssa.Function, l *effects.Loop) bool {
 		}
 	}
 	if lo == 0 {
-		return false
+		return nil
 	}
 	var best ast.Node
 	ast.Inspect(syn, func(n ast.Node) bool {
@@ -175,8 +192,60 @@ func (k *c18) unboundedFor(fn *ssa.Function, l *effects.Loop) bool {
 		}
 		return true
 	})
-	fs, ok := best.(*ast.ForStmt)
-	return ok && fs.Cond == nil
+	return best
+}
+
+// unboundedFor reports whether the loop is a `for` without condition.
+func (k *c18) unboundedFor(fn *ssa.Function, l *effects.Loop) bool {
+	return k.serveKind(fn, l) == "unbounded"
+}
+
+// serveKind classifies a loop as a candidate serve loop:
+//
+//	"unbounded"    for { … }
+//	"conditional"  for [!]f(…) { … }   — the condition is (the negation of) one call of a
+//	               module function: the shape of `for !s.stopping() { … }`; whether f really
+//	               is a quit test is decided by R4-quit-test
+//	""             anything else (counted / range loops, conditions on data): bounded work
+func (k *c18) serveKind(fn *ssa.Function, l *effects.Loop) string {
+	fs, ok := k.loopStmt(fn, l).(*ast.ForStmt)
+	if !ok {
+		return ""
+	}
+	if fs.Cond == nil {
+		return "unbounded"
+	}
+	if k.loopCondCall(l) != nil {
+		return "conditional"
+	}
+	return ""
+}
+
+// loopCondCall: the loop header ends in `if [!]call(…)` with one edge leaving the loop and
+// the callee is a function of the module; returns the call.
+func (k *c18) loopCondCall(l *effects.Loop) *ssa.Call {
+	h := l.Header
+	if len(h.Instrs) == 0 {
+		return nil
+	}
+	ifi, ok := h.Instrs[len(h.Instrs)-1].(*ssa.If)
+	if !ok || len(h.Succs) != 2 || (l.Blocks[h.Succs[0]] == l.Blocks[h.Succs[1]]) {
+		return nil
+	}
+	cond := ifi.Cond
+	if u, ok := cond.(*ssa.UnOp); ok && u.Op == token.NOT {
+		cond = u.X
+	}
+	call, ok := cond.(*ssa.Call)
+	if !ok {
+		return nil
+	}
+	for _, g := range k.pg.Callees(&call.Call) {
+		if g.Blocks != nil && k.p.InModule(g) {
+			return call
+		}
+	}
+	return nil
 }
 
 func (k *c18) serveLoops() []*c18ServeLoop {
@@ -207,11 +276,15 @@ func (k *c18) serveLoops() []*c18ServeLoop {
 				if len(found) == 0 {
 					continue
 				}
-				// outermost unbounded loop containing the call
+				// outermost unbounded (or stop-conditioned) loop containing the call
 				var L *effects.Loop
+				kind := ""
 				for _, l := range loops {
-					if l.Blocks[b] && k.unboundedFor(fn, l) && (L == nil || len(l.Blocks) > len(L.Blocks)) {
-						L = l
+					if !l.Blocks[b] {
+						continue
+					}
+					if sk := k.serveKind(fn, l); sk != "" && (L == nil || len(l.Blocks) > len(L.Blocks)) {
+						L, kind = l, sk
 					}
 				}
 				if L == nil {
@@ -219,7 +292,7 @@ func (k *c18) serveLoops() []*c18ServeLoop {
 				}
 				sl := byLoop[L]
 				if sl == nil {
-					sl = &c18ServeLoop{fn: fn, loop: L}
+					sl = &c18ServeLoop{fn: fn, loop: L, kind: kind}
 					if fn.Signature.Recv() != nil {
 						sl.recvT, _ = deref2(fn.Signature.Recv().Type()).(*types.Named)
 					}
@@ -236,8 +309,49 @@ func (k *c18) serveLoops() []*c18ServeLoop {
 // quitHelper recognises a loop-free, non-blocking method whose only job is
 // `select { case <-recv.q: return B; default: }; return !B`.
 func (k *c18) quitHelper(g *ssa.Function) (effects.FPath, bool, bool) {
+	return k.quitHelperD(g, 0)
+}
+
+// quitHelperD also reads one or two levels of wrapping: `func (s *S) stopping() bool {
+// return isDone(s.quit) }` / `return !s.running()`. The path is in g's terms (receiver
+// field, or a channel parameter of g); callers re-root it at the call site.
+func (k *c18) quitHelperD(g *ssa.Function, depth int) (effects.FPath, bool, bool) {
 	if g.Blocks == nil || len(effects.Loops(g)) > 0 || g.Signature.Results().Len() != 1 {
 		return effects.FPath{}, false, false
+	}
+	if len(g.Blocks) == 1 && depth < 2 {
+		// wrapper: a single block that returns the (negated) result of one module call
+		var call *ssa.Call
+		simple := true
+		for _, in := range g.Blocks[0].Instrs {
+			switch x := in.(type) {
+			case *ssa.Call:
+				if call != nil {
+					simple = false
+				}
+				call = x
+			case *ssa.FieldAddr, *ssa.UnOp, *ssa.Return, *ssa.DebugRef:
+			default:
+				simple = false
+			}
+		}
+		if simple && call != nil {
+			if ret, ok := g.Blocks[0].Instrs[len(g.Blocks[0].Instrs)-1].(*ssa.Return); ok && len(ret.Results) == 1 {
+				v, neg := ret.Results[0], false
+				if u, ok := v.(*ssa.UnOp); ok && u.Op == token.NOT {
+					v, neg = u.X, true
+				}
+				if v == ssa.Value(call) {
+					if h := call.Call.StaticCallee(); h != nil && h != g && k.p.InModule(h) {
+						if pth, whenClosed, ok := k.quitHelperD(h, depth+1); ok {
+							if tp := k.translatePath(pth, h, &call.Call); tp.OK {
+								return tp, whenClosed != neg, true
+							}
+						}
+					}
+				}
+			}
+		}
 	}
 	var sel *ssa.Select
 	for _, b := range g.Blocks {
@@ -263,7 +377,10 @@ func (k *c18) quitHelper(g *ssa.Function) (effects.FPath, bool, bool) {
 			continue
 		}
 		pth := k.pg.PathOf(st.Chan)
-		if !pth.OK || pth.RecvType == nil || len(pth.Fields) != 1 {
+		if !pth.OK || pth.Global != nil || pth.Fresh != nil {
+			continue
+		}
+		if !(pth.RecvType != nil && len(pth.Fields) == 1) && !(pth.RecvType == nil && pth.Fn == g) {
 			continue
 		}
 		for _, fb := range g.Blocks {
@@ -302,6 +419,170 @@ func (k *c18) quitHelper(g *ssa.Function) (effects.FPath, bool, bool) {
 		}
 	}
 	return effects.FPath{}, false, false
+}
+
+// chanPath resolves the channel a select receives from. A channel handed out by a one-line
+// accessor of the module (`func (s *S) done() <-chan struct{} { return s.quit }`) is the
+// field it returns; a channel produced by any other call (ctx.Done(), a function value) is
+// not read by this rule: unread names it.
+func (k *c18) chanPath(ch ssa.Value) (pth effects.FPath, unread string) {
+	pth = k.pg.PathOf(ch)
+	call, isCall := c18Strip(ch).(*ssa.Call)
+	if !isCall {
+		if ut, ok := ch.(*ssa.UnOp); ok {
+			call, isCall = c18Strip(ut.X).(*ssa.Call)
+		}
+	}
+	if !isCall {
+		return pth, ""
+	}
+	if h := call.Call.StaticCallee(); h != nil && h.Blocks != nil && k.p.InModule(h) {
+		var rets []ssa.Value
+		for _, b := range h.Blocks {
+			for _, in := range b.Instrs {
+				if r, ok := in.(*ssa.Return); ok && len(r.Results) == 1 {
+					rets = append(rets, r.Results[0])
+				}
+			}
+		}
+		if len(rets) == 1 {
+			hp := k.pg.PathOf(c18Strip(rets[0]))
+			if hp.OK && hp.Global == nil && hp.Fresh == nil {
+				if tp := k.translatePath(hp, h, &call.Call); tp.OK {
+					return tp, ""
+				}
+			}
+		}
+	}
+	return effects.FPath{}, "the channel returned by " + effects.CalleeName(&call.Call)
+}
+
+// unreadExitTests lists the calls whose result decides an exit of the loop and that the
+// rule cannot read as a quit test: module functions that are not quit helpers, methods of
+// sync/atomic values and of context.Context, function values; and channels obtained from
+// calls in a select of the loop. Exits on the error of the blocking call itself are not
+// stop tests and are not listed.
+func (k *c18) unreadExitTests(sl *c18ServeLoop) []string {
+	out := append([]string{}, sl.unreadChans...)
+	var calls func(v ssa.Value, d int, acc *[]*ssa.Call)
+	calls = func(v ssa.Value, d int, acc *[]*ssa.Call) {
+		if v == nil || d > 4 {
+			return
+		}
+		switch x := v.(type) {
+		case *ssa.Call:
+			*acc = append(*acc, x)
+		case *ssa.UnOp:
+			calls(x.X, d+1, acc)
+		case *ssa.BinOp:
+			calls(x.X, d+1, acc)
+			calls(x.Y, d+1, acc)
+		case *ssa.Extract:
+			calls(x.Tuple, d+1, acc)
+		case *ssa.Phi:
+			for _, e := range x.Edges {
+				calls(e, d+1, acc)
+			}
+		case *ssa.ChangeInterface:
+			calls(x.X, d+1, acc)
+		case *ssa.MakeInterface:
+			calls(x.X, d+1, acc)
+		}
+	}
+	for b := range sl.loop.Blocks {
+		if len(b.Instrs) == 0 || len(b.Succs) != 2 {
+			continue
+		}
+		ifi, ok := b.Instrs[len(b.Instrs)-1].(*ssa.If)
+		if !ok {
+			continue
+		}
+		// an exit: one successor outside the loop, or a block that only returns
+		leaves := false
+		for _, sc := range b.Succs {
+			if !sl.loop.Blocks[sc] {
+				leaves = true
+			}
+		}
+		if !leaves {
+			continue
+		}
+		var cs []*ssa.Call
+		calls(ifi.Cond, 0, &cs)
+		for _, c := range cs {
+			if _, _, blocking := effects.BlockingCall(&c.Call); blocking {
+				continue
+			}
+			isBlockingHelper := false
+			for _, bc := range sl.blocking {
+				if ssa.Instruction(c) == ssa.Instruction(bc.in) {
+					isBlockingHelper = true
+				}
+			}
+			if isBlockingHelper {
+				// serveOne(conn) that tests the quit channel itself and reports it through
+				// its result (a sentinel error): the helper's own stop test decides the exit
+				if g := c.Call.StaticCallee(); g != nil && k.hasStopTest(g, 0) {
+					out = append(out, g.Name()+"() (the helper that blocks also makes a stop test of its own and reports it through its result)")
+				}
+				continue
+			}
+			switch {
+			case c.Call.IsInvoke():
+				if t := types.TypeString(c.Call.Value.Type(), nil); t == "context.Context" {
+					out = append(out, "context.Context."+c.Call.Method.Name())
+				}
+			case c.Call.StaticCallee() == nil:
+				if _, isB := c.Call.Value.(*ssa.Builtin); !isB {
+					out = append(out, "a function value")
+				}
+			default:
+				g := c.Call.StaticCallee()
+				if g.Blocks != nil && k.p.InModule(g) {
+					if rt := g.Signature.Results(); rt.Len() == 1 {
+						if bt, ok := rt.At(0).Type().Underlying().(*types.Basic); ok && bt.Kind() == types.Bool {
+							if _, _, isQuit := k.quitHelper(g); !isQuit {
+								out = append(out, g.Name()+"()")
+							}
+						}
+					}
+				} else if o := effects.CalleeObj(&c.Call); o != nil && o.Pkg() != nil && o.Pkg().Path() == "sync/atomic" {
+					out = append(out, "sync/atomic "+o.Name())
+				}
+			}
+		}
+	}
+	sort.Strings(out)
+	return uniqStrings(out)
+}
+
+// hasStopTest: g (or a module function it calls synchronously, two levels) contains a select
+// that receives from a channel, or calls a quit helper.
+func (k *c18) hasStopTest(g *ssa.Function, depth int) bool {
+	if g == nil || g.Blocks == nil || depth > 2 {
+		return false
+	}
+	for _, b := range g.Blocks {
+		for _, in := range b.Instrs {
+			switch x := in.(type) {
+			case *ssa.Select:
+				for _, st := range x.States {
+					if st.Dir == types.RecvOnly {
+						return true
+					}
+				}
+			case *ssa.Call:
+				h := x.Call.StaticCallee()
+				if h == nil || h == g || h.Blocks == nil || !k.p.InModule(h) {
+					continue
+				}
+				if _, _, isQuit := k.quitHelper(h); isQuit || k.hasStopTest(h, depth+1) {
+					return true
+				}
+			}
+		}
+	}
+	return false
 }
 
 // methodsOf returns the source functions (methods and the closures inside
@@ -357,7 +638,11 @@ func (k *c18) r4() {
 						if st.Dir != types.RecvOnly {
 							continue
 						}
-						pth := k.pg.PathOf(st.Chan)
+						pth, unread := k.chanPath(st.Chan)
+						if unread != "" {
+							sl.unreadChans = append(sl.unreadChans, unread)
+							continue
+						}
 						if !pth.OK || pth.RecvType == nil || len(pth.Fields) != 1 {
 							why = append(why, "select receives from a channel that is not a field of the receiver")
 							continue
@@ -429,6 +714,11 @@ func (k *c18) r4() {
 						if !ok {
 							continue
 						}
+						pth = k.translatePath(pth, g, &call.Call)
+						if !pth.OK || pth.RecvType == nil || len(pth.Fields) != 1 {
+							why = append(why, g.Name()+" tests a channel that is not a field of the receiver")
+							continue
+						}
 						leave := 1
 						if whenClosed != flip {
 							leave = 0
@@ -456,12 +746,21 @@ func (k *c18) r4() {
 				return
 			}
 			if len(why) == 0 {
+				// Nothing wrong was observed; was the whole loop read? An exit of the loop that
+				// is taken on the result of a module call the rule could not read as a quit test
+				// (for !s.done() { … } with done() built on an atomic flag, a context, a helper
+				// chain deeper than two levels, a function value) is an incomplete extraction.
+				if un := k.unreadExitTests(sl); len(un) > 0 {
+					sl.notDecided = "the loop leaves on the result of " + strings.Join(un, ", ") + ", which is not a non-blocking receive from a quit channel field that this rule can read"
+					k.r.OK("R4-quit-test", construct, pos, "NOT DECIDED — "+sl.notDecided)
+					k.r.Note("C18 R4-quit-test: %s NOT DECIDED — %s", k.fname(sl.fn), sl.notDecided)
+					return
+				}
 				why = append(why, "no select receiving from a receiver-field channel inside the loop")
 			}
 			k.r.Fail("R4-quit-test", construct, pos, "the loop cannot observe a stop request: "+strings.Join(uniqStrings(why), "; "))
 		})
 	}
-	k.r.Floor("R4-quit-test", 6)
 
 	// ---- closers: functions that close(recv.<quit field>)
 	type closer struct {
@@ -510,6 +809,12 @@ func (k *c18) r4() {
 	for _, sl := range loops {
 		sl := sl
 		if !sl.quitOK {
+			if sl.notDecided != "" {
+				// the entity exists; the rules that depend on knowing its quit channel make no claim
+				for _, rl := range []string{"R4-stop-closes-quit", "R4-quit-created", "R4-unblock"} {
+					k.r.OK(rl, k.fname(sl.fn)+": serve loop whose stop test was not read", k.p.Rel(sl.fn.Pos()), "NOT DECIDED — depends on the quit channel of the loop, which R4-quit-test could not determine ("+sl.notDecided+")")
+				}
+			}
 			continue
 		}
 		cl := closersOf(sl.quit)
@@ -616,10 +921,20 @@ func (k *c18) r4() {
 			})
 		}
 	}
-	k.r.Floor("R4-stop-closes-quit", 6)
-	// every blocking call of every serve loop is judged; the floor is one per serve loop (6),
-	// not the number of read statements a loop happens to be written with
-	k.r.Floor("R4-unblock", 6)
+	// Floors are keyed on the lifecycle TYPES (structs of the two packages one of whose
+	// methods closes a channel field of the receiver: nbtns.Server, UDPServer, TCPServer,
+	// llmnr.Server, llmnr.Client), not on the number of loops the code happens to be written
+	// with: two servers sharing one serve function, or a per-connection loop folded into a
+	// helper, keep every type covered (R4-serve-loop below) while the count of loops drops.
+	lts := k.lifecycleTypes()
+	nLT := len(lts)
+	if nLT < 5 {
+		nLT = 5
+	}
+	k.r.Floor("R4-quit-test", nLT)
+	k.r.Floor("R4-stop-closes-quit", nLT)
+	k.r.Floor("R4-unblock", nLT)
+	k.r4Coverage(lts, loops)
 
 	// ---- R4-wg: goroutines the stop function waits for
 	type tinfo struct {
@@ -655,6 +970,28 @@ func (k *c18) r4() {
 		}
 		ti := tinfos[sl.recvT.Obj()]
 		sites := k.pg.GoSites[sl.fn]
+		// `go func() { defer s.wg.Done(); s.serve() }()`: the loop function is called
+		// synchronously by the function the go statement starts
+		wrapper := map[*ssa.Go]*ssa.Function{}
+		if len(sites) == 0 {
+			for _, cf := range k.fns {
+				if len(k.pg.GoSites[cf]) == 0 {
+					continue
+				}
+				for _, cb := range cf.Blocks {
+					for _, cin := range cb.Instrs {
+						if call, ok := cin.(*ssa.Call); ok && call.Call.StaticCallee() == sl.fn {
+							for _, g := range k.pg.GoSites[cf] {
+								if wrapper[g] == nil {
+									wrapper[g] = cf
+									sites = append(sites, g)
+								}
+							}
+						}
+					}
+				}
+			}
+		}
 		if !ti.has {
 			if len(sites) > 0 {
 				notWaited = append(notWaited, k.fname(sl.fn))
@@ -689,21 +1026,27 @@ func (k *c18) r4() {
 				}
 				// target defers Done (directly or in a deferred closure)
 				done := false
-				for _, b := range sl.fn.Blocks {
-					for _, in := range b.Instrs {
-						d, ok := in.(*ssa.Defer)
-						if !ok {
-							continue
-						}
-						if c18IsSyncMethod(&d.Call, "WaitGroup", "Done") && k.pg.PathOf(effects.AllArgs(&d.Call)[0]).Same(ti.wait) {
-							done = true
-						}
-						for _, f := range k.pg.Callees(&d.Call) {
-							for _, fb := range f.Blocks {
-								for _, fin := range fb.Instrs {
-									if ci, ok := fin.(ssa.CallInstruction); ok && c18IsSyncMethod(ci.Common(), "WaitGroup", "Done") &&
-										k.pg.PathOf(effects.AllArgs(ci.Common())[0]).Same(ti.wait) {
-										done = true
+				doneFns := []*ssa.Function{sl.fn}
+				if w := wrapper[g]; w != nil {
+					doneFns = append(doneFns, w)
+				}
+				for _, dfn := range doneFns {
+					for _, b := range dfn.Blocks {
+						for _, in := range b.Instrs {
+							d, ok := in.(*ssa.Defer)
+							if !ok {
+								continue
+							}
+							if c18IsSyncMethod(&d.Call, "WaitGroup", "Done") && k.pg.PathOf(effects.AllArgs(&d.Call)[0]).Same(ti.wait) {
+								done = true
+							}
+							for _, f := range k.pg.Callees(&d.Call) {
+								for _, fb := range f.Blocks {
+									for _, fin := range fb.Instrs {
+										if ci, ok := fin.(ssa.CallInstruction); ok && c18IsSyncMethod(ci.Common(), "WaitGroup", "Done") &&
+											k.pg.PathOf(effects.AllArgs(ci.Common())[0]).Same(ti.wait) {
+											done = true
+										}
 									}
 								}
 							}
@@ -721,20 +1064,37 @@ func (k *c18) r4() {
 			})
 		}
 	}
-	k.r.Floor("R4-wg", 4)
+	// one per type whose stop function waits on a WaitGroup (Server, UDPServer, TCPServer);
+	// the per-connection loop of TCPServer adds a fourth obligation today, but whether that
+	// loop is a function of its own is the author's choice
+	{
+		nWait := 0
+		for _, ti := range tinfos {
+			if ti.has {
+				nWait++
+			}
+		}
+		if nWait < 3 {
+			nWait = 3
+		}
+		// loops whose stop test was NOT DECIDED still count as present
+		for _, sl := range loops {
+			if sl.notDecided != "" && sl.recvT != nil && tinfos[sl.recvT.Obj()] != nil && tinfos[sl.recvT.Obj()].has {
+				k.r.OK("R4-wg", k.fname(sl.fn)+": serve loop whose stop test was not read", k.p.Rel(sl.fn.Pos()), "NOT DECIDED — see R4-quit-test")
+			}
+		}
+		k.r.Floor("R4-wg", nWait)
+	}
 	if len(notWaited) > 0 {
 		k.r.Note("R4: the closer of these loops does not wait for them (no WaitGroup on the type); their exit rests on R4-quit-test/R4-unblock only: %s", strings.Join(notWaited, ", "))
 	}
 
-	// ---- R4-once: types that carry a sync.Once close their channel only inside Once.Do
+	// ---- R4-once: types that carry a sync.Once close their channel only inside Once.Do.
+	// Keyed on the lifecycle types themselves (not on their serve loops): however the loop is
+	// written, every close of a channel field of such a type must run under Once.Do.
 	nOnce := 0
-	seenT := map[*types.TypeName]bool{}
-	for _, sl := range loops {
-		if sl.recvT == nil || !sl.quitOK || seenT[sl.recvT.Obj()] {
-			continue
-		}
-		seenT[sl.recvT.Obj()] = true
-		st, _ := sl.recvT.Underlying().(*types.Struct)
+	for _, lt := range lts {
+		st, _ := lt.nt.Underlying().(*types.Struct)
 		if st == nil {
 			continue
 		}
@@ -745,13 +1105,13 @@ func (k *c18) r4() {
 			}
 		}
 		if onceF == nil {
-			k.r.Note("R4-once: %s has no sync.Once field; a second Stop would close %s twice (outside the property's statement, not checked)", sl.recvT.Obj().Name(), sl.quit.String())
+			k.r.Note("R4-once: %s has no sync.Once field; a second Stop would close its quit channel twice (outside the property's statement, not checked)", lt.nt.Obj().Name())
 			continue
 		}
-		for _, c := range closersOf(sl.quit) {
+		for _, c := range lt.closers {
 			c := c
 			nOnce++
-			construct := fmt.Sprintf("%s: close(%s) runs under %s.Do", k.fname(c.fn), sl.quit.String(), onceF.Name())
+			construct := fmt.Sprintf("%s: close(%s) runs under %s.Do", k.fname(c.fn), c.path.String(), onceF.Name())
 			guarded := false
 			if mc := k.pg.Closures[c.fn]; mc != nil {
 				if refs := mc.Referrers(); refs != nil {
@@ -767,8 +1127,12 @@ func (k *c18) r4() {
 					}
 				}
 			}
+			if !guarded {
+				// s.once.Do(s.shutdown): the closing method itself is handed to Once.Do as a method value
+				guarded = k.onlyUnderOnce(c.fn, onceF)
+			}
 			if guarded {
-				k.r.OK("R4-once", construct, k.pos(c.call), "the closing function literal is only passed to Once.Do on the receiver's Once field")
+				k.r.OK("R4-once", construct, k.pos(c.call), "the closing function is only run through Once.Do on the receiver's Once field")
 			} else {
 				k.r.Fail("R4-once", construct, k.pos(c.call), "the type carries "+onceF.Name()+" (documented: closed only once) but this close is not inside "+onceF.Name()+".Do: a second Close panics with `close of closed channel`")
 			}
@@ -778,4 +1142,211 @@ func (k *c18) r4() {
 	k.r.Extra["R4_wg_go_sites"] = nWg
 	k.r.Extra["R4_once_closers"] = nOnce
 	k.r.Extra["R4_stop_checks"] = nStop
+}
+
+// ------------------------------------------------------------------ lifecycle types
+
+type c18Closer struct {
+	fn   *ssa.Function
+	call ssa.CallInstruction
+	path effects.FPath
+}
+
+type c18LifeType struct {
+	nt      *types.Named
+	closers []c18Closer
+}
+
+// lifecycleTypes: the named struct types of the two packages one of whose methods (or a
+// function literal inside one) closes a channel field of the receiver.
+func (k *c18) lifecycleTypes() []*c18LifeType {
+	by := map[*types.TypeName]*c18LifeType{}
+	var out []*c18LifeType
+	for _, fn := range k.fns {
+		for _, b := range fn.Blocks {
+			for _, in := range b.Instrs {
+				ci, ok := in.(ssa.CallInstruction)
+				if !ok {
+					continue
+				}
+				bi, ok := ci.Common().Value.(*ssa.Builtin)
+				if !ok || bi.Name() != "close" || len(ci.Common().Args) != 1 {
+					continue
+				}
+				pth := k.pg.PathOf(ci.Common().Args[0])
+				if !pth.OK || pth.RecvType == nil || len(pth.Fields) != 1 {
+					continue
+				}
+				lt := by[pth.RecvType.Obj()]
+				if lt == nil {
+					lt = &c18LifeType{nt: pth.RecvType}
+					by[pth.RecvType.Obj()] = lt
+					out = append(out, lt)
+				}
+				lt.closers = append(lt.closers, c18Closer{fn, ci, pth})
+			}
+		}
+	}
+	sort.Slice(out, func(i, j int) bool {
+		a, b := out[i].nt.Obj(), out[j].nt.Obj()
+		if a.Pkg().Path() != b.Pkg().Path() {
+			return a.Pkg().Path() < b.Pkg().Path()
+		}
+		return a.Name() < b.Name()
+	})
+	return out
+}
+
+// reachFns: the functions of the anchored packages reached from roots through calls,
+// go/defer statements and function literals (bounded depth).
+func (k *c18) reachFns(roots []*ssa.Function) map[*ssa.Function]bool {
+	seen := map[*ssa.Function]bool{}
+	var visit func(fn *ssa.Function, d int)
+	visit = func(fn *ssa.Function, d int) {
+		if fn == nil || fn.Blocks == nil || seen[fn] || d > 8 {
+			return
+		}
+		seen[fn] = true
+		for _, a := range fn.AnonFuncs {
+			visit(a, d)
+		}
+		for _, b := range fn.Blocks {
+			for _, in := range b.Instrs {
+				ci, ok := in.(ssa.CallInstruction)
+				if !ok {
+					continue
+				}
+				for _, g := range k.pg.Callees(ci.Common()) {
+					if rp := relPkg(k.p, g); rp == c18Nbtns || rp == c18Llmnr {
+						visit(g, d+1)
+					}
+				}
+			}
+		}
+	}
+	for _, r := range roots {
+		visit(r, 0)
+	}
+	return seen
+}
+
+// c18LifeAnchors: the lifecycle types confirmed by reading (package → type names).
+var c18LifeAnchors = [][2]string{
+	{c18Nbtns, "Server"}, {c18Nbtns, "UDPServer"}, {c18Nbtns, "TCPServer"},
+	{c18Llmnr, "Server"}, {c18Llmnr, "Client"},
+}
+
+// r4Coverage (rule R4-serve-loop): every lifecycle type reaches, from its methods, at
+// least one serve loop that R4-quit-test judged (or reported NOT DECIDED). This is what
+// the instance floors of the R4 rules stand for.
+func (k *c18) r4Coverage(lts []*c18LifeType, loops []*c18ServeLoop) {
+	const rule = "R4-serve-loop"
+	have := map[string]bool{}
+	for _, lt := range lts {
+		have[lt.nt.Obj().Pkg().Path()+"."+lt.nt.Obj().Name()] = true
+	}
+	for _, a := range c18LifeAnchors {
+		if !have[k.p.ModPath+"/"+a[0]+"."+a[1]] {
+			k.r.Fail(rule, fmt.Sprintf("%s.%s: closes a quit channel field", a[0], a[1]), "", "no method of this type closes a channel field of its receiver any more: the stop signal of its loops is gone (or the type no longer resolves)")
+		}
+	}
+	for _, lt := range lts {
+		name := relPkgOfObj(k, lt.nt.Obj()) + "." + lt.nt.Obj().Name()
+		construct := name + ": reaches a judged serve loop"
+		pos := k.p.Rel(lt.nt.Obj().Pos())
+		reach := k.reachFns(k.methodsOf(lt.nt))
+		var judged, undecided []string
+		for _, sl := range loops {
+			if !(sl.recvT != nil && sl.recvT.Obj() == lt.nt.Obj()) && !reach[sl.fn] {
+				continue
+			}
+			if sl.notDecided != "" {
+				undecided = append(undecided, sl.fn.Name())
+			} else {
+				judged = append(judged, sl.fn.Name())
+			}
+		}
+		switch {
+		case len(judged) > 0:
+			k.r.OK(rule, construct, pos, "loops: "+strings.Join(uniqStrings(append(judged, undecided...)), ", "))
+		case len(undecided) > 0:
+			k.r.OK(rule, construct, pos, "NOT DECIDED — the only loops of this type ("+strings.Join(uniqStrings(undecided), ", ")+") have a stop test the rule does not read")
+		default:
+			// no loop in a recognised shape: is a blocking call reached at all?
+			var blk []string
+			for fn := range reach {
+				for _, b := range fn.Blocks {
+					for _, in := range b.Instrs {
+						if ci, ok := in.(ssa.CallInstruction); ok {
+							if _, nm, is := effects.BlockingCall(ci.Common()); is {
+								blk = append(blk, fn.Name()+": "+nm)
+							}
+						}
+					}
+				}
+			}
+			sort.Strings(blk)
+			if len(blk) > 0 {
+				k.r.OK(rule, construct, pos, "NOT DECIDED — blocking receive calls are reached ("+strings.Join(uniqStrings(blk), ", ")+") but none sits in an unbounded or stop-conditioned loop this rule reads (the loop may be driven by an iterator, a callback or recursion)")
+				k.r.Note("C18 R4: %s NOT DECIDED — its blocking calls are not inside a loop shape the rule reads", name)
+				// the entity exists: count it for the floors of the dependent rules
+				for _, rl := range []string{"R4-quit-test", "R4-stop-closes-quit", "R4-unblock"} {
+					k.r.OK(rl, name+": receive loop in a shape that is not read", pos, "NOT DECIDED — see R4-serve-loop")
+				}
+			} else {
+				k.r.Fail(rule, construct, pos, "the type closes a quit channel but none of its methods reaches a Read*/Accept* call: the receive loop the property names is gone")
+			}
+		}
+	}
+	k.r.Floor(rule, 5)
+}
+
+func relPkgOfObj(p interface{ relName(string) string }, o types.Object) string {
+	if o.Pkg() == nil {
+		return ""
+	}
+	return p.relName(o.Pkg().Path())
+}
+
+// onlyUnderOnce: fn (a declared method) is referenced only as the argument of Once.Do on
+// the receiver's Once field.
+func (k *c18) onlyUnderOnce(fn *ssa.Function, onceF *types.Var) bool {
+	if fn.Parent() != nil {
+		return false
+	}
+	uses, under := 0, 0
+	for _, g := range k.fns {
+		for _, b := range g.Blocks {
+			for _, in := range b.Instrs {
+				var rands []*ssa.Value
+				rands = in.Operands(rands)
+				for _, r := range rands {
+					if *r == nil {
+						continue
+					}
+					refers := *r == ssa.Value(fn)
+					if mc, ok := (*r).(*ssa.MakeClosure); ok && !refers {
+						// bound method value s.shutdown: a synthetic closure over fn
+						if bf, ok := mc.Fn.(*ssa.Function); ok && bf.Synthetic != "" && bf.Object() == fn.Object() && fn.Object() != nil {
+							refers = true
+						}
+					}
+					if !refers {
+						continue
+					}
+					if _, isMC := in.(*ssa.MakeClosure); isMC {
+						continue
+					}
+					uses++
+					if ci, ok := in.(ssa.CallInstruction); ok && c18IsSyncMethod(ci.Common(), "Once", "Do") {
+						p := k.pg.PathOf(effects.AllArgs(ci.Common())[0])
+						if p.OK && len(p.Fields) == 1 && p.Fields[0] == onceF {
+							under++
+						}
+					}
+				}
+			}
+		}
+	}
+	return uses > 0 && uses == under
 }
